@@ -133,9 +133,9 @@ type statusOut struct {
 
 func orderFlag(kind string) (int, string) {
 	switch kind {
-	case "apply_nonlinear":
+	case "apply_nonlinear", "apply_nonlinear_cfg":
 		return 2, "non-linear"
-	case "apply_skip":
+	case "apply_skip", "apply_skip_cfg":
 		return 1, "linear-skip"
 	}
 	return 0, "linear"
@@ -270,7 +270,15 @@ func runHistory(ops []cliOp) (problems []string, canon string, applicable bool) 
 				n = 1
 				args = append(args, "1")
 			}
-			args = append(args, "--dir", dirURL, "--url", dbURL, "--tx-mode", "none", "--exec-order", flag, "--lock-timeout", "1ms")
+			if strings.HasSuffix(op.Kind, "_cfg") {
+				// the execution order comes from the project file, not from a flag.
+				hcl := fmt.Sprintf("env \"e\" {\n  url = %q\n  migration {\n    dir = %q\n    exec_order = %s\n  }\n}\n", dbURL, dirURL,
+					map[string]string{"non-linear": "NON_LINEAR", "linear-skip": "LINEAR_SKIP"}[flag])
+				os.WriteFile(wk.Path("atlas.hcl"), []byte(hcl), 0o644)
+				args = append(args, "--env", "e", "-c", "file://"+wk.Path("atlas.hcl"), "--tx-mode", "none", "--lock-timeout", "1ms")
+			} else {
+				args = append(args, "--dir", dirURL, "--url", dbURL, "--tx-mode", "none", "--exec-order", flag, "--lock-timeout", "1ms")
+			}
 			res := wk.Run(nil, args...)
 			if last && strings.Contains(res.Stderr, "panic:") {
 				bad("`migrate apply` panicked: %s", res)
@@ -418,7 +426,7 @@ func status(wk *clih.Work, dirURL, dbURL string) statusOut {
 }
 
 func cliAlphabet() []cliOp {
-	return []cliOp{{Kind: "start_two_applied"}, {Kind: "add"}, {Kind: "add_bad"}, {Kind: "add_ck"}, {Kind: "add_ooo"}, {Kind: "add_ooo_bad"}, {Kind: "apply"}, {Kind: "apply1"}, {Kind: "apply_nonlinear"}, {Kind: "apply_skip"},
+	return []cliOp{{Kind: "start_two_applied"}, {Kind: "add"}, {Kind: "add_bad"}, {Kind: "add_ck"}, {Kind: "add_ooo"}, {Kind: "add_ooo_bad"}, {Kind: "apply"}, {Kind: "apply1"}, {Kind: "apply_nonlinear"}, {Kind: "apply_skip"}, {Kind: "apply_nonlinear_cfg"}, {Kind: "apply_skip_cfg"},
 		{Kind: "set", V: "1"}, {Kind: "set", V: "2"}, {Kind: "set", V: "3"}, {Kind: "set", V: "4"}, {Kind: "fix"}, {Kind: "remove_newest"}}
 }
 
